@@ -1,9 +1,10 @@
 #!/usr/bin/env python3
-"""usage: seed_archive_round.py <round dir> <results file> <round number>
+"""usage: seed_archive_round.py <round dir> <results file> <round number> [kind of seed-a] [kind of seed-b]
 archives <round dir>/<Cxx>/seed-{a,b} as seeded/<Cxx>-<n> (next free n); the results file has lines
 `Cxx-a violations=N broken=N rules=R1 R2` from the check run against the patched tree, and optional `# Cxx-a shipped` marks"""
 import json, os, re, shutil, sys
 rd, resf, rnd = sys.argv[1], sys.argv[2], sys.argv[3]
+KIND = {"a": sys.argv[4] if len(sys.argv) > 4 else "value/bound slip", "b": sys.argv[5] if len(sys.argv) > 5 else "bookkeeping/control-flow slip"}
 V = os.path.dirname(os.path.dirname(os.path.abspath(__file__)))
 res, shipped, why = {}, set(), {}
 for l in open(resf):
@@ -35,7 +36,7 @@ for (pid, k), (nv, rules) in sorted(res.items()):
         det = "%s — %s" % (" / ".join(rules), "as shipped" if (pid, k) in shipped else "added after this seed")
     else:
         det = "missed: " + why.get((pid, k), "no structural or relational necessary condition found")
-    meta = {"property": pid, "round": int(rnd), "kind": "value/bound slip" if k == "a" else "bookkeeping/control-flow slip",
+    meta = {"property": pid, "round": int(rnd), "kind": KIND[k],
             "needs_to_manifest": "see notes.md",
             "confirmed": "clean tree + patch: library builds, ctest 29/29, run.sh exits non-zero; clean tree: run.sh exits 0 (each in its own scratch worktree)",
             "detected_by": det,
